@@ -606,4 +606,5 @@ func main() {
 	genConsts(repo, out)
 	genSync(repo, out)
 	genAccess(repo, out)
+	genLocks(repo, out)
 }
